@@ -8,11 +8,11 @@ PROP = dict(
     harnesses={_H: dict(sources=["harness/c08_handles.cpp"])},
     legs=[
         dict(name="cabinet", harness=_H, flavour="asan", mode="cabinet", args=_WD, case_timeout=240, quick=100000, thorough=2000000, leaks=True),
-        # 15-operation alphabet, every history of the given depth (15^5 quick, 15^7 thorough)
+        # 16-operation alphabet, every history of the given depth (16^5 quick, 16^7 thorough)
         dict(name="cabinet-x5", harness=_H, flavour="asan", mode="cabinet-x", args=["--depth", "5"] + _WD, case_timeout=240,
-             quick=759375, thorough=0, scalable=False, exhaustive=True, leaks=True),
+             quick=1048576, thorough=0, scalable=False, exhaustive=True, leaks=True),
         dict(name="cabinet-x7", harness=_H, flavour="asan", mode="cabinet-x", args=["--depth", "7"] + _WD, case_timeout=240,
-             quick=0, thorough=170859375, scalable=False, exhaustive=True, leaks=True),
+             quick=0, thorough=268435456, scalable=False, exhaustive=True, leaks=True),
         dict(name="pool", harness=_H, flavour="asan", mode="pool", args=_WD, case_timeout=240, quick=60000, thorough=2000000, leaks=True),
         dict(name="fd", harness=_H, flavour="asan", mode="fd", args=_WD, case_timeout=240, quick=60000, thorough=2000000, leaks=True),
         # 36-operation alphabet on three handles, every history of the given depth (36^4 quick, 36^5 thorough)
@@ -23,15 +23,17 @@ PROP = dict(
         dict(name="lifetime", harness=_H, flavour="asan", mode="lifetime", args=_WD, case_timeout=240, quick=30000, thorough=1000000, leaks=True),
     ],
     rule=("cabinet: seeded histories of 60-260 operations on one Cabinet (alloc with/without object, update, free, at/[], clear, "
-          "reserve, foreach whose visitor frees the current / another / a stale entry or looks entries up; live-entry cap drawn from "
+          "reserve, free/update/at/[] with tokens that are not live - stale ones, null ones (Token(), a reset() token, id 0 with any "
+          "position incl. one past the end and SIZE_MAX) and forged ones (a live or not-yet-issued id paired with another or an "
+          "out-of-range position) - which must all do nothing, foreach whose visitor frees the current / another / a stale entry or looks entries up; live-entry cap drawn from "
           "{3,6,16,48}; grow/drain/churn phases so that the free list gets long and is threaded in varied orders). After every operation: "
           "size()/empty() equal the model, every live token resolves through at() and [] to the object stored with it, the 64 most "
           "recently freed tokens plus up to 192 older ones (all of them when fewer) resolve to nothing, free/update of stale tokens are "
           "refused and change nothing, a token returned by alloc differs from every token the cabinet ever issued, foreach presents each "
           "entry that is live at the end exactly once and nothing that is not live at the moment of the visit. A cabinet case is "
           "non-trivial when a slot was reused and a stale token was looked up whose slot holds a newer live entry. "
-          "cabinet-x: every history of fixed depth over 15 operations {alloc(obj), alloc(), free #0..#5, update #0..#2, clear, "
-          "foreach{nothing}, foreach{free current}, foreach{free another}} (#k = k-th issued token mod the number issued, live or "
+          "cabinet-x: every history of fixed depth over 16 operations {alloc(obj), alloc(), free #0..#4, update #0..#2, clear, "
+          "foreach{nothing}, foreach{free current}, foreach{free another}, free(null token), update(null token)} (#k = k-th issued token mod the number issued, live or "
           "stale), all stale tokens probed after every step. "
           "pool: 40-200 alloc/free operations on 1-2 ObjectPool<T>, T in {1-byte probe, 24-byte probe, 224-byte probe}, three "
           "constructor shapes (default, two values, move-only argument), retention limit in {0,1,2,3,64,unbounded}, LIFO/FIFO/random "
@@ -61,7 +63,7 @@ PROP = dict(
                "identity per watcher) over random and exhaustively enumerated operation histories, under ASan+UBSan with pool "
                "poisoning, per-case heap accounting through the ASan allocator hooks and LeakSanitizer at exit"),
     level_text=("Every operation of every generated history is checked against an independent model while AddressSanitizer/UBSan "
-                "watch the real code (parked pool blocks poisoned); small alphabets are enumerated completely (cabinet: 15 operations "
+                "watch the real code (parked pool blocks poisoned); small alphabets are enumerated completely (cabinet: 16 operations "
                 "to depth 5 quick / 7 thorough; Fd: 36 operations on 3 handles to depth 4 / 5). Held on the histories explored, not a proof."),
     level_note=("trusts the models in harness/c08_handles.cpp, gcc ASan/UBSan/LSan and the ASan malloc/free hooks used for the heap "
                 "accounting; id wrap-around and throwing constructors are not explored"),
@@ -70,6 +72,9 @@ PROP = dict(
         "cab_alloc_reused_slot", "cab_alloc_new_slot", "cab_stale_lookup_slot_reused", "cab_stale_lookup_after_clear",
         "cab_alloc_after_clear", "cab_clear_nonempty", "cab_free_stale_rejected", "cab_update_stale_rejected",
         "cab_foreach_free_current", "cab_foreach_free_other", "token_relation_checks",
+        # tokens that are not live and were never valid: id 0 (also the marker of a free cell) and forged (id,pos) pairs
+        "cab_null_token_free", "cab_null_token_update", "cab_null_token_lookup", "cab_null_token_free_on_free_slot",
+        "cab_null_token_update_on_free_slot", "cab_null_token_nonzero_pos", "cab_forged_token_ops",
         # pool: placement new / explicit destructor around the block cache
         "pool_alloc_from_free_list", "pool_alloc_from_heap", "pool_free_parked", "pool_free_released",
         "pool_destroy_with_parked", "pool_keep_0", "pool_keep_1to3", "pool_keep_64", "pool_keep_unbounded",
